@@ -47,9 +47,42 @@ def check_exit(ctx, out):
         if e[0] == "var" and b.local_ty(e[1]) == "bool":
             flag = (e[1], vals)
     if flag is None:
-        out.viol("C11.exit", "C11.exit|flag", ctx.where(b, t["span"]), "process::exit is not guarded by a boolean flag")
-        out.inst("C11.exit", n, 6)
-        return
+        # no flag variable: the exit may be decided directly by a scan of the diagnostics
+        # (`if violations.values().flatten().any(is_error) { exit(1) }`), read in the normalised view
+        bv = ctx.inl(b, skip=ctx.domain_api, tag="domain", sugar=True)
+        xs = [(bj, tj) for bj, tj in bv.calls() if callee_matches(tj, r"^std::process::(exit|abort)$")]
+        direct = False
+        if len(xs) == 1:
+            bj, tj = xs[0]
+            vcfg = cfg_of(bv)
+            for br, vals2, e in util.guards(ctx, bv, bj):
+                txt = render(e, 600)
+                if e[0] == "call" and re.search(r"BlockSeverity as std::cmp::PartialEq>::eq$", e[1]) and "BlockSeverity::Error" in txt and "severity" in txt and 0 not in vals2:
+                    # the test sits in a loop over every diagnostic of the reported map (no other filter)
+                    h = vcfg.innermost_loop(br)
+                    its = [(x, tt) for x, tt in bv.calls() if h is not None and x in vcfg.loops()[h] and callee_matches(tt, r"Iterator>?::next$") and vcfg.innermost_loop(x) == h]
+                    src = render(ctx.expr(bv).operand(its[0][1]["args"][0]), 2000) if its else ""
+                    from rules.shared import TRUNCATING
+                    trunc = [c[1].split("::")[-1] for c in walk(ctx.expr(bv).operand(its[0][1]["args"][0])) if c[0] == "call" and (TRUNCATING.search(c[1]) or re.search(r"Iterator>?::(filter|filter_map)$", c[1]))] if its else ["?"]
+                    if its and not trunc and any(ps == "param" for ps in [x[0] for x in walk(ctx.expr(bv).operand(its[0][1]["args"][0]))]):
+                        direct = True
+                    else:
+                        out.viol("C11.exit", "C11.exit|scan", ctx.where(b, t["span"]), "the scan that decides the exit status does not run over every diagnostic of the reported map (%s)" % (trunc or src[:80]))
+                        direct = None
+        if direct:
+            n += 4
+            out.inst("C11.exit", n, 5, ["%s: exit(1) iff any diagnostic has severity()==Error (direct scan)" % b.id])
+        else:
+            if direct is False:
+                out.viol("C11.exit", "C11.exit|flag", ctx.where(b, t["span"]), "process::exit is not guarded by a boolean flag or by a scan for an Error-severity diagnostic")
+            out.inst("C11.exit", n, 6)
+            return
+    if flag is not None:
+        _check_exit_flag(ctx, out, b, bi, t, cfg, flag, n)
+    _check_out(ctx, out, b, bi, cfg)
+
+
+def _check_exit_flag(ctx, out, b, bi, t, cfg, flag, n):
     fl, vals = flag
     if 0 in vals:
         out.viol("C11.exit", "C11.exit|polarity", ctx.where(b, t["span"]), "the run exits with failure when the error flag is FALSE")
@@ -110,6 +143,8 @@ def check_exit(ctx, out):
         out.viol("C11.exit", "C11.exit|flag-never-true", ctx.where(b), "the error flag is never set")
     out.inst("C11.exit", n, 5, ["%s: exit(1) iff has_error; has_error := false; has_error := true iff severity()==Error (sticky)" % b.id])
 
+
+def _check_out(ctx, out, b, bi, cfg):
     # ---------------------------------------------------------------- C11.out
     m = 0
     main = ctx.main_view()
@@ -141,6 +176,11 @@ def check_exit(ctx, out):
                     txt = render(e, 400)
                     if re.search(r"HashMap::is_empty\(", txt) and vals2 == {0}:
                         ok = True
+                if not ok and len(writers) == 1:
+                    # ... or the report function itself returns early for an empty map
+                    for br, vals2, e in util.guards(ctx, b, writers[0][0]):
+                        if re.search(r"HashMap::is_empty\(", render(e, 400)) and vals2 == {0} and any(x[0] == "param" for x in walk(e)):
+                            ok = True
                 if ok:
                     m += 1
                 else:
